@@ -195,7 +195,9 @@ PROPS["C04"] = dict(
         dict(module="MC_TokenIter", cfg="MC_TokenIter_thorough.cfg", tiers=("thorough",), workers=8),
     ],
     proofs=[dict(file="proofs/PosOrder.tla",
-                 claim="the order on generated positions used by every lookup is a total preorder with PosLt as its strict part, and the greatest position not after a query is unique (unbounded, TLAPS/SMT)")],
+                 claim="the order on generated positions used by every lookup is a total preorder with PosLt as its strict part, and the greatest position not after a query is unique (unbounded, TLAPS/SMT)"),
+            dict(file="proofs/GlbSearch.tla",
+                 claim="the binary search of the lookup machine (arbitrary probe inside the window) over an ordered token list of ANY length: the window invariant is inductive, a hit lies inside the list, and a closed window is exactly the insertion index -- every position before it is before the query, none after it is, and the query is absent (unbounded, TLAPS/SMT)")],
     trace="Trace_Map",
     drive=dict(quick=dict(n=300, size=4), thorough=dict(n=6000, size=12)),
     nontrivial=lambda e: e["out"].get("k") == "ok" and ((e["op"] in ("lookups", "iterate") and len(e["args"]["toks"]) >= 2) or (e["op"] == "ordering" and len(e["out"]["toks"]) >= 2)),
